@@ -337,6 +337,7 @@ def run(ctx, rep):
     if rep.expect("R15.4", "RaftLog::drain_cache_evictable", len(pub_drain) == 1):
         eviction_tables(ctx, rep, pub_drain[0], False)
     r15_5(ctx, rep)
+    r15_8(ctx, rep)
     r15_7(ctx, rep)
 
 
@@ -398,6 +399,63 @@ class _R157:
                 return f("R15.7", self.who, "mutates PayloadCache fields directly; " + detail, **kw)
             return g
         return f
+
+
+def r15_8(ctx, rep):
+    """R15.8: the limits and the figures keep their meaning from the configuration to the report."""
+    rep.rule("R15.8", "limit wiring: where the payload cache is built, its item limit derives from Config.log_cache_max_items and its byte capacity "
+                      "from Config.log_cache_capacity (not the other way round); and stat() reports each figure from the field of that meaning "
+                      "(item count = len of the map, size = byte total, max_item / capacity = the two limits, boundary = last_evictable)")
+    key = ctx.body_key(r"RaftLog::<T>::open$")
+    g = ctx.graph(key)
+    P = ctx.product(key)
+    WIRE = {"max_items": "log_cache_max_items", "capacity": "log_cache_capacity"}
+    n_c = 0
+    for n in sorted(P.live):
+        for si, st in enumerate(g.stmts(n)):
+            if st["k"] == "assign" and st["rv"]["k"] == "agg" and st["rv"].get("adt", "").endswith("payload_cache::PayloadCache"):
+                n_c += 1
+                f = dict(zip(st["rv"]["fnames"], st["rv"]["fields"]))
+                for fld, cfg in WIRE.items():
+                    if fld not in f:
+                        rep.unresolved("R15.8", "cache-field:%s" % fld, "PayloadCache has no field %s" % fld, where=g.where(n, si))
+                        continue
+                    e = strip_ids(g.prov_operand(g.inst(n), f[fld]))
+                    others = [c for c in WIRE.values() if c != cfg and has_field(e, c)]
+                    if has_field(e, cfg) and not others:
+                        rep.ok("R15.8", "PayloadCache.%s" % fld, "<= Config.%s" % cfg, where=g.where(n, si))
+                    else:
+                        rep.violation("R15.8", "open|cache-limit-wiring:%s<=%s" % (fld, expr_s(e)[:50]), "PayloadCache.%s" % fld,
+                                      "the cache's %s is not taken from Config.%s but from %s: the configured limits are exchanged / ignored, so "
+                                      "the cache is 'over its limit' relative to a number the user never configured" % (fld, cfg, expr_s(e)[:80]),
+                                      where=g.where(n, si))
+    rep.floor("R15.8", "PayloadCache constructions in Op(open)", n_c, 1)
+    key = ctx.body_key(r"RaftLog::<T>::stat$")
+    g = ctx.graph(key)
+    P = ctx.product(key)
+    REPORT = {"payload_cache_item_count": lambda e: contains(e, lambda x: call_is(x, r"BTreeMap::<K, V, A>::len$") and MAP(call_arg(x, 0))),
+              "payload_cache_size": lambda e: has_field(e, "size") and not has_field(e, "capacity"),
+              "payload_cache_max_item": lambda e: has_field(e, "max_items"),
+              "payload_cache_capacity": lambda e: has_field(e, "capacity") and not has_field(e, "size"),
+              "payload_cache_last_evictable": lambda e: has_field(e, "last_evictable")}
+    n_s = 0
+    for n in sorted(P.live):
+        for si, st in enumerate(g.stmts(n)):
+            if st["k"] == "assign" and st["rv"]["k"] == "agg" and st["rv"].get("adt", "").endswith("stat::Stat"):
+                n_s += 1
+                f = dict(zip(st["rv"]["fnames"], st["rv"]["fields"]))
+                for fld, okf in REPORT.items():
+                    if fld not in f:
+                        rep.unresolved("R15.8", "stat-field:%s" % fld, "Stat has no field %s" % fld, where=g.where(n, si))
+                        continue
+                    e = strip_ids(g.prov_operand(g.inst(n), f[fld]))
+                    if okf(e):
+                        rep.ok("R15.8", "Stat.%s" % fld, "<= %s" % expr_s(e)[-60:], where=g.where(n, si), nontrivial=False)
+                    else:
+                        rep.violation("R15.8", "stat|%s<=%s" % (fld, expr_s(e)[-50:]), "Stat.%s" % fld,
+                                      "stat() reports %s from %s: the reported figure is not the quantity of that name" % (fld, expr_s(e)[:80]),
+                                      where=g.where(n, si))
+    rep.floor("R15.8", "Stat constructions in stat()", n_s, 1)
 
 
 def r15_5(ctx, rep):
